@@ -18,6 +18,7 @@ type wireOpts struct {
 	MaxDevLen   int  // seeds longer than this get no substitutions (default 600)
 	Canonical   bool // seeds from canonical values only
 	Big         bool
+	IndelMaxLen int  // non-base seeds longer than this get no insertions/deletions (0 = MaxDevLen)
 	Indel       bool // every one-byte deletion and every one-byte insertion (from Sigma) on the seeds that get substitutions
 }
 
@@ -74,7 +75,7 @@ func wireSpace(t *rm.Type, o wireOpts, fn func(w []byte, desc string) bool) {
 				m[i] = old
 			}
 		}
-		if o.Indel && len(w) <= o.MaxDevLen && (isBase || !o.DevBaseOnly) {
+		if o.Indel && len(w) <= o.MaxDevLen && (isBase || (!o.DevBaseOnly && (o.IndelMaxLen == 0 || len(w) <= o.IndelMaxLen))) {
 			// edits that shift everything after them: a field boundary moves, a prefix is read from data bytes
 			m := make([]byte, 0, len(w)+1)
 			for i := range w {
